@@ -103,7 +103,7 @@ def cases(draw):
 
 
 def stage_hyp(ctx):
-    hyp_drive(ctx, cases(), judge, 1200 if ctx.tier == "quick" else 25000)
+    hyp_drive(ctx, cases(), judge, 900 if ctx.tier == "quick" else 8000)
 
 
 def decode_case(fdp):
